@@ -92,19 +92,29 @@ def cli_project_arg(project):
 BGZF_EOF = bytes.fromhex("1f8b08040000000000ff0600424302001b0003000000000000000000")
 
 
-def bgzf_block(data):
-    co = zlib.compressobj(6, zlib.DEFLATED, -15)
+def bgzf_block(data, level=6):
+    co = zlib.compressobj(level, zlib.DEFLATED, -15)
     cdata = co.compress(data) + co.flush()
     bsize = len(cdata) + 25
     hdr = struct.pack("<BBBBIBBHBBHH", 0x1f, 0x8b, 8, 4, 0, 0, 0xff, 6, 0x42, 0x43, 2, bsize)
     return hdr + cdata + struct.pack("<II", zlib.crc32(data) & 0xffffffff, len(data) & 0xffffffff)
 
 
-def bgzf_compress(data, sizes=None, eof=True, empty_every=0, empty_first=False):
-    """sizes: iterable of uncompressed block sizes (cycled); default 65280."""
+def bgzf_compress(data, sizes=None, eof=True, empty_every=0, empty_first=False, first_stored_max=False):
+    """sizes: iterable of uncompressed block sizes (cycled); default 65280. first_stored_max: the first data block is
+    stored (not deflated) and as long on disk as a BGZF block can be (64 KiB), so that with anything in front of it
+    (an empty block) it ends beyond the first 64 KiB of the stream."""
     out = [bgzf_block(b"")] if empty_first else []
     i = 0
     k = 0
+    if first_stored_max and len(data) > 70000:
+        n = 65480
+        co = zlib.compressobj(0, zlib.DEFLATED, -15)
+        while len(co.compress(data[:n + 1]) + co.flush()) + 26 <= 65536:
+            n += 1
+            co = zlib.compressobj(0, zlib.DEFLATED, -15)
+        out.append(bgzf_block(data[:n], level=0))
+        i = n
     sizes = list(sizes) if sizes else [65280]
     while i < len(data):
         n = max(1, min(65280, sizes[k % len(sizes)]))
